@@ -53,8 +53,13 @@ def last_record_span(text: str):
     return start, end
 
 
+NUMERIC_TOKENS = ["0", "00", "1", "6", "007", "118", "119", "999", "-1", "1.0", "1e0", "+6", "6_0"]
+
+
 def corrupt_token(rng, tok: str) -> str:
-    r = rng.below(9)
+    r = rng.below(10)
+    if r == 9:
+        return rng.choice(NUMERIC_TOKENS)
     if r == 0 and len(tok) > 1:
         i = rng.below(len(tok))
         return tok[:i] + tok[i + 1:]
@@ -291,6 +296,7 @@ def run(ctx):
         reqs.append((line, cb))
 
     hangs = {"n": 0}
+    valid_symbols = set(en.Element.__members__.keys())
 
     def load_mol2(text):
         if hangs["n"] >= 3:       # the verdict is already fixed; do not spend 5 s on every further text
@@ -412,6 +418,18 @@ def run(ctx):
             if len(impl) > len(base_frames) or not tl.frames_equal(impl, base_frames[: len(impl)]):
                 k = "C10:xyz-cut-inside-last-number" if in_last_number else "C10:truncated-xyz-partial"
                 ctx.violation(k, f"{kind} of {base_name} at byte {cut}: a frame was returned whose content differs from the undamaged file", replay)
+        # (5) every atom line of an accepted text carries an element symbol: a member name of Element (any letter case
+        #     as `str.capitalize` maps it) or the dummy marker `*` — by an independent walk of the damaged text
+        dl = text.split("\n")
+        p0 = 0
+        for f in impl:
+            for q in range(p0 + 2, p0 + 2 + len(f["atoms"])):
+                tok0 = (dl[q].split() or [""])[0] if q < len(dl) else ""
+                if tok0 != "*" and tok0.capitalize() not in valid_symbols:
+                    ctx.violation("C10:invalid-symbol-accepted",
+                                  f"{kind} of {base_name}: the atom line {dl[q]!r} was accepted although {tok0!r} is not an element symbol", replay)
+                    break
+            p0 += 2 + len(f["atoms"])
         if record is not None and base_frames != "err" and not tl.frames_equal(impl, base_frames):
             ctx.violation("C10:damaged-record-accepted",
                           f"{kind} of {base_name}: atom line {cut}: the text was accepted and a frame differs from the undamaged file's", replay)
@@ -493,6 +511,17 @@ def run(ctx):
                 for c in range(pos, a):
                     case_mol2(name, text, base, "cut-byte-bond-record", text[:c], cut=c)
         lines, roles = mol2_line_roles(text)
+        atom_idx = [i for i, r in enumerate(roles) if r == "atom"]
+        for i in sorted(set(atom_idx[:1] + atom_idx[-1:])):
+            parts = re.split(r"(\s+)", lines[i])
+            ks = [k for k, t in enumerate(parts) if t and not t.isspace()]
+            for col in (1, 5, 7):                       # label, atom type, substructure name
+                if col < len(ks):
+                    for tok in NUMERIC_TOKENS:
+                        q = list(parts)
+                        q[ks[col]] = tok
+                        case_mol2(name, text, base, "column-overwritten-by-number",
+                                  "\n".join(lines[:i] + ["".join(q)] + lines[i + 1:]), cut=i)
         idx = list(range(len(lines) - 1 if lines and lines[-1] == "" else len(lines)))
         if len(idx) > 150:
             idx = sorted(set(rng.choice(idx) for _ in range(100)))
@@ -520,6 +549,18 @@ def run(ctx):
         for c in range(a, b + 1):
             case_xyz(name, text, base, "cut-byte", text[:c], cut=c, in_last_number=(last_tok_start < c < b))
         lines, roles = xyz_line_roles(text)
+        # the element symbol of an atom line overwritten by a number (atomic numbers are not symbols) and by other
+        # non-symbols: every numeric token on the first, a middle and the last atom line
+        atom_idx = [i for i, r in enumerate(roles) if r == "atom"]
+        for i in sorted(set(atom_idx[:1] + atom_idx[len(atom_idx) // 2: len(atom_idx) // 2 + 1] + atom_idx[-1:])):
+            parts = re.split(r"(\s+)", lines[i])
+            k0 = next((k for k, t in enumerate(parts) if t and not t.isspace()), None)
+            if k0 is None:
+                continue
+            for tok in NUMERIC_TOKENS + ["Xx", "c1", "C.3", ""]:
+                q = list(parts)
+                q[k0] = tok
+                case_xyz(name, text, base, "symbol-overwritten", "\n".join(lines[:i] + ["".join(q)] + lines[i + 1:]), cut=i)
         idx = list(range(len(lines) - 1 if lines and lines[-1] == "" else len(lines)))
         if len(idx) > 150:
             idx = sorted(set(rng.choice(idx) for _ in range(100)))
